@@ -22,6 +22,7 @@ RULE = (
     "at least one non-default option (or, for dictionary cases, a nested dictionary with >= 3 nodes and an empty 'children' list)."
     ' Also: user keys that look like private mixin names, positional constructor arguments, memoising childiter, auto-vivifying dictionaries, re-entrant and aborted exports.'
     ' Also: maxlevels that are not whole numbers (literal reading).'
+    ' Rounds 11-14: ready-made attriter mappings, aliased documents, lazy filtering childiters, attribute order, scarred trees.'
 )
 ASSUMPTIONS = [
     "reference serialiser reads vars(node) minus the two bookkeeping keys and applies attriter/childiter/dictcls/maxlevel itself",
